@@ -73,6 +73,18 @@ func (e *OsIsLeaf) Is(target error) bool {
 	return target == os.ErrNotExist || target == context.DeadlineExceeded
 }
 
+// TypeIsLeaf matches any reference of its own type, including the typed
+// nil pointer commonly used as a type witness: Is(err, (*TypeIsLeaf)(nil)).
+type TypeIsLeaf struct{ Msg string }
+
+func (e *TypeIsLeaf) Error() string {
+	if e == nil {
+		return "<nil TypeIsLeaf>"
+	}
+	return e.Msg
+}
+func (e *TypeIsLeaf) Is(target error) bool { _, ok := target.(*TypeIsLeaf); return ok }
+
 // RegIsLeaf is IsLeaf with a decoder: the Is method survives transfer.
 type RegIsLeaf struct{ Msg string }
 
